@@ -1,4 +1,4 @@
 From Coq Require Extraction ExtrOcamlBasic.
-From Wz Require Import lib.Bytes lib.ExtractBase C19.Base C19.Gen C19.Model C19.Limited.
+From Wz Require Import lib.Bytes lib.ExtractBase C19.Base C19.Gen C19.Model C19.Limited C19.App.
 Extraction Language OCaml.
-Extraction "C19/model_extracted.ml" force_types dst_init dc_run respond make_environ lim_run lim_init.
+Extraction "C19/model_extracted.ml" force_types dst_init dc_run respond make_environ lim_run lim_init run_app.
